@@ -135,6 +135,10 @@ var checks = map[string]checkCfg{
 		Assumptions: append([]string{"cache.go is compiled with time.Now/time.Since mechanically redirected to the harness clock", "at the exact expiry instant hit and miss are both accepted", "a DirCache Put larger than maxDirSize is treated as not stored"}, baseAssumptions...),
 		Phases: []phase{{Name: "seq", Variant: "clock", Tests: "^TestC21$", QuickShards: 4, QuickChecks: 3000, ThoroughShards: 16, ThoroughChecks: 50000, ReplayVariant: true},
 			{Name: "race", Variant: "race", Tests: "^TestC21Concurrent$", QuickShards: 2, QuickChecks: 150, ThoroughShards: 8, ThoroughChecks: 1500}}},
+	"C22": {Level: "fault_enumeration", Technique: "rapid write histories on a crash-simulating backend; every crash point of every history is enumerated and the durable image compared with the promised-data model",
+		Rule:        "each case is a rapid-generated history of CREATE / WRITE (UNSTABLE, DATA_SYNC, FILE_SYNC) / COMMIT / SETATTR(size) / READ on two files; within a history EVERY crash point is examined (before each backend operation and after each reply; counts in labels crash_points); non-trivial = the history has a crash point after at least one acknowledged non-empty FILE_SYNC write; distinct = FNV-64 of the case JSON",
+		Assumptions: append([]string{"crash model: file data is volatile until File.Sync, namespace operations and truncation are journaled (durable at once); bytes covered by the request in flight may hold the old or the new value"}, baseAssumptions...),
+		Phases:      []phase{rp("rapid", "^TestC22$", 4, 800, 16, 8000)}},
 	"C02": {Level: "exploration", Technique: "rapid histories vs POSIX tree model + cached-vs-uncached differential",
 		Rule:        "cases are rapid-generated sequential histories of LOOKUP/CREATE/MKDIR/SYMLINK/REMOVE/RMDIR/RENAME/READDIR(PLUS)/GETATTR/READLINK over names {a,b,c} to depth 3, addressed through every handle ever issued (stale ones included); each history runs under the all-off baseline and k cached configurations (quick 3, thorough 6 of 15); non-trivial = a read-type request on a name or directory affected by an earlier successful mutation, executed under a configuration with at least one cache on; distinct = FNV-64 of the case JSON",
 		Assumptions: append([]string{"documented latitude L1-L7 of DESIGN.md §5 C02 (REMOVE of empty dir, UNCHECKED/EXCLUSIVE on existing objects, error code identity not compared against the model, path-bound handles)"}, baseAssumptions...),
